@@ -586,7 +586,7 @@ fn drive_full(root: &Path, inp: &ChaosInput) -> CRes {
             let msg = if vi == 0 {
                 json!({"jsonrpc": "2.0", "method": "textDocument/didOpen", "params": {"textDocument": {"uri": uri, "languageId": "python", "version": 1, "text": text}}})
             } else {
-                json!({"jsonrpc": "2.0", "method": "textDocument/didChange", "params": {"textDocument": {"uri": uri, "version": vi + 1}, "contentChanges": [{"text": text}]}})
+                json!({"jsonrpc": "2.0", "method": "textDocument/didChange", "params": {"textDocument": {"uri": uri, "version": vi + 1}, "contentChanges": super::lspdrv::content_changes(&text)}})
             };
             send(&mut srv, &frame(&msg), inp.fragment, &mut frags);
             if !parses(text) && vi > 0 && parses(&versions[vi - 1]) {
